@@ -418,6 +418,54 @@ def instrument(prop, beh, idx, rng):
             "cfg": {"cols": ["a", "b"], "epn": epn, "cache": cache, "log_nodes": log_nodes, "log_reads": 0}, "steps": out}
 
 
+def conn_scenarios(workdir, tier, rng):
+    """The per-connection attribute machine (Conn.tla): every sequence of <=5 attribute / transaction / statement / read-back
+    operations, longer ones by simulation. Expected stamps and read-back values are TLC's (they travel in the steps and
+    are compared with registers and results by Monitor.tla)."""
+    def cfg(maxops):
+        return ("CONSTANTS\n  Times = {40, 45}\n  MaxOps = %d\nSPECIFICATION Spec\nINVARIANTS TxNowOnlyInTx Emit\nCHECK_DEADLOCK FALSE\n" % maxops)
+    b1, d1, g1, w1 = vf.gen_behaviours(workdir, "Conn", cfg(5), name="gen_conn", workers=8)
+    b2, d2, g2, w2 = vf.gen_behaviours(workdir, "Conn", cfg(12), name="gen_conn_sim", simulate=200 if tier == "quick" else 3000, depth=14)
+    notes = ["Conn.tla (s3db_conn attribute machine), every sequence of 5 operations: %d behaviours, %d states, %.0fs; 12 operations -simulate: %d behaviours" % (len(b1), d1, w1, len(b2))]
+    rng.shuffle(b1)
+    rng.shuffle(b2)
+    if tier == "quick":
+        b1, b2 = b1[:500], b2[:150]
+    scen = []
+    for i, beh in enumerate(b1 + b2):
+        w = "w1"
+        steps = [{"op": "open", "c": w, "mode": "rw"}]
+        intx = False
+        for op in beh:
+            o = op["op"]
+            if o == "set_wt":
+                steps.append({"op": "conn_set", "c": w, "attr": "write_time", "t": op["t"]})
+            elif o == "clear_wt":
+                steps.append({"op": "conn_set", "c": w, "attr": "write_time"})
+            elif o == "set_dl":
+                steps.append({"op": "conn_set", "c": w, "attr": "deadline", **({"t": 90000} if op["kind"] == "future" else {"raw": "2001-01-01 00:00:00"})})
+            elif o == "clear_dl":
+                steps.append({"op": "conn_set", "c": w, "attr": "deadline"})
+            elif o in ("begin", "commit", "rollback"):
+                steps.append({"op": o, "c": w})
+                intx = o == "begin"
+            elif o == "stmt":
+                steps.append({"op": "stmt", "c": w, "id": "c%d" % op["n"], "kind": "ins", "key": "i:%d" % (5200 + op["n"]),
+                              "cols": {"a": "t:conn%d" % op["n"]}, "wt": op["wt"], "keep_wt": 1, "intx": 1 if op["intx"] else 0})
+                if not op["fails"]:
+                    steps.append({"op": "dump", "c": w, "tag": "stamp"})
+            elif o == "get":
+                steps.append({"op": "conn_get", "c": w})
+            elif o == "refresh":
+                steps.append({"op": "refresh", "c": w})
+        if intx:
+            steps.append({"op": "commit", "c": w})
+        steps += [{"op": "conn_set", "c": w, "attr": "deadline"}, {"op": "rows", "c": w}, {"op": "open", "c": "rd", "mode": "ro"}]
+        scen.append({"id": "c15-conn-%d" % i, "kind": "seq", "features": ["conn_machine"],
+                     "cfg": {"cols": ["a", "b"], "epn": 0, "cache": 0, "log_nodes": 0, "log_reads": 0}, "steps": steps})
+    return scen, d1, g1, notes
+
+
 def generate(workdir, prop, tier, rng):
     withtx = prop == "C05"
     behs, states, trans, notes = [], 0, 0, []
@@ -459,6 +507,11 @@ def generate(workdir, prop, tier, rng):
     add(b, (500 if prop != "C08" else 150) if tier == "quick" else 12000)
     scen = [instrument(prop, x, i, rng) for i, x in enumerate(behs)]
     if prop == "C15":
+        cs, d, g, cnotes = conn_scenarios(workdir, tier, rng)
+        notes += cnotes
+        states += d
+        trans += g
+        scen += cs
         from merge_family import rowapi_scenarios
         ra, d, g, note = rowapi_scenarios(workdir, tier, rng)
         notes.append(note)
